@@ -24,6 +24,7 @@ CONSTANTS MaxN,        \* at most this many live ranges
           T,           \* time steps 0..T-1
           Sizes,       \* lattice of sizes
           Aligns,      \* lattice of alignments
+          Eqs,         \* lattice of equivalence classes ({0} = no range is declared equivalent to another)
           MaxAddr,     \* outcome space: addresses and totals are in 0..MaxAddr ...
           AddrStep     \* ... and multiples of AddrStep (1 = every address)
 
@@ -81,9 +82,10 @@ Good(Q, o) == /\ Len(o.addr) = Len(Q)
               /\ TotalOK(Q, o.addr, o.total) /\ AboveLowerBound(Q, o.total)
 
 (* ---- the input lattice (shared with the harness, which parses the same .cfg constants) ----- *)
-Desc == {d \in [s : 0..(T - 1), e : 0..(T - 1), size : Sizes, al : Aligns, eq : {0}] : d.s <= d.e}
-Key(d) == ((d.s * 8 + d.e) * 1024 + d.size) * 1024 + d.al       \* total order on Desc (T <= 8, sizes, al < 1024)
-AddrSpace == {a \in 0..MaxAddr : a % AddrStep = 0}
+Desc == {d \in [s : 0..(T - 1), e : 0..(T - 1), size : Sizes, al : Aligns, eq : Eqs] : d.s <= d.e}
+Key(d) == (((d.s * 8 + d.e) * 1024 + d.size) * 1024 + d.al) * 4 + d.eq   \* total order on Desc (T <= 8; size, al < 1024; eq < 4)
+(* outcome space; an interval when every address is admitted so that TLC tests membership without enumerating *)
+AddrSpace == IF AddrStep = 1 THEN 0..MaxAddr ELSE {a \in 0..MaxAddr : a % AddrStep = 0}
 
 (* ---- the most general allocator ----------------------------------------------------------- *)
 Init == R = <<>> /\ phase = "build" /\ out = Null
@@ -98,6 +100,15 @@ Allocate == /\ phase = "build" /\ Len(R) > 0
             /\ UNCHANGED R
 Next == Extend \/ Allocate
 Spec == Init /\ [][Next]_vars
+(* the same relation written so that TLC can *test* a given step without enumerating Desc; this is the
+   form the transcriptions are checked against (PROPERTY A!SpecR); Alloc_MC.cfg checks Spec => SpecR *)
+ExtendR == /\ phase = "build" /\ Len(R) < MaxN
+           /\ Len(R') = Len(R) + 1 /\ SubSeq(R', 1, Len(R)) = R
+           /\ R'[Len(R')] \in Desc
+           /\ (IF R = <<>> THEN TRUE ELSE Key(R[Len(R)]) <= Key(R'[Len(R')]))
+           /\ UNCHANGED <<phase, out>>
+NextR == ExtendR \/ Allocate
+SpecR == Init /\ [][NextR]_vars
 
 (* ---- invariants: one per clause (used by the transcriptions through INSTANCE) ----------- *)
 Done == phase = "done"
